@@ -15,7 +15,7 @@ LEVEL = 'fault_enumeration'
 TECHNIQUE = 'runtime monitor over scripted lifecycles with injected shutdown faults (fresh interpreter per lifecycle, loopback gRPC)'
 RULE = ('lifecycles = product of pre-existing hooks (sys x threading: none / a function) x tracing enabled or NO_TRACE '
         'x op sequence (start, start-start, shutdown-shutdown) x fault subset of {service stopped, service answers '
-        'errors, pending send fails (immediately / released while flush waits / only the oldest one while the others are still on their way), each of 1-3 plugins raising in '
+        'errors, pending send fails (immediately / released while flush waits / only the oldest one while the others are still on their way), a plugin taking itself off the plugin list in its shutdown, each of 1-3 plugins raising in '
         'shutdown}; the 4x2x3 hook/sequence product is enumerated exhaustively with no fault, fault subsets are '
         'seeded; non-trivial = a pre-existing hook existed, or a fault was injected, or an op was repeated; distinct by '
         'canonical lifecycle')
@@ -47,7 +47,7 @@ def plan(tier, seed):
 
 FAULTS = ['server_stopped', 'poll_errors', 'send_fails', 'send_fails_during_flush', 'plugin0_shutdown',
           'plugin1_shutdown', 'plugin2_shutdown', 'poll_slow', 'same_plugin_names', 'plugin_named_poll',
-          'first_send_fails_rest_slow']
+          'first_send_fails_rest_slow', 'deregistering_plugin0']
 
 
 def gen_case(seed):
@@ -193,7 +193,8 @@ def child_lifecycle(case):
             display = 'Twin'               # e.g. two AuditPlugin classes from different packages
         if 'plugin_named_poll' in case['faults'] and i == 0:
             display = 'poll'
-        plugins.make('Life%d' % i, kinds, order=i, display_name=display)
+        plugins.make('Life%d' % i, kinds, order=i, display_name=display,
+                     deregister=(i == 0 and 'deregistering_plugin0' in case['faults']))
         names.append('vf.plugins.Life%d' % i)
     for f in case['faults']:
         if f.startswith('plugin') and f[6].isdigit():
